@@ -502,3 +502,119 @@ Definition msched_first_lookup_before (n : nat) : list mwho :=
 (* the wrappers run to their end before B goes on *)
 Definition msched_all_before (n : nat) : list mwho :=
   msched_held n ++ m_rests n ++ m_release.
+
+(* ---- cross dial: both nodes call Connect at the same time ----------------------------------------- *)
+(* Nodes A and B.  Handshake 1 is dialled by A ([h1], node descriptions [c12]: ini = A, rsp = B),
+   handshake 2 by B ([h2], [c21]: ini = B, rsp = A).  Each node has ONE registry and ONE record of
+   handshakes in progress for the other node's peer id, fed by both of its roles:
+     B's registry entry for A  = what B's inbound handler of handshake 1 registered ([registered h1])
+                                 or what B's own Connect added after handshake 2 ([oreg2]);
+     B's handshakes in progress with A = the inbound bracket of handshake 1 ([inflight h1]) plus
+                                 the outbound bracket of B's Connect ([xout] of handshake 2);
+   and symmetrically for A.  A Connect first tests isConnected: with the other node already in
+   its registry it returns at once ([short_i]), otherwise it dials (begin; handshake steps;
+   addPeer; return) -- test and begin are one step here.  A's handler for handshake i runs only
+   once the dialler has opened the handshake stream ([beg_i]).  Only the streams A opens (answered
+   by B's wrapper) are tracked: wrappers observe and change nothing else, so the statement for
+   B's streams is the same statement with the two node descriptions exchanged. *)
+Record xworld := {
+  h1 : world; h2 : world;
+  beg1 : bool; beg2 : bool;
+  oreg1 : option ident; oreg2 : option ident;
+  short1 : option ident; short2 : option ident;
+  sA : list wstate
+}.
+Definition xinit : xworld :=
+  {| h1 := init; h2 := init; beg1 := false; beg2 := false; oreg1 := None; oreg2 := None;
+     short1 := None; short2 := None; sA := [] |}.
+
+Definition c12 (a b : node) : cfg := {| ini := a; rsp := b |}.
+Definition c21 (a b : node) : cfg := {| ini := b; rsp := a |}.
+
+Definition first_some {A : Type} (x y : option A) : option A :=
+  match x with Some _ => x | None => y end.
+Definition regBA (x : xworld) : option ident := first_some (registered (h1 x)) (oreg2 x).
+Definition regAB (x : xworld) : option ident := first_some (registered (h2 x)) (oreg1 x).
+(* the outbound bracket of a dialler whose handshake world is h *)
+Definition xout (beg : bool) (h : world) : nat :=
+  if beg then match ipc h with IOpen _ | IFailed => 0%nat | _ => 1%nat end else 0%nat.
+Definition markB (x : xworld) : nat := (inflight (h1 x) + xout (beg2 x) (h2 x))%nat.
+(* what A's Connect(B) returned *)
+Definition ret1 (x : xworld) : option ident :=
+  match short1 x with Some id => Some id | None => returned (h1 x) end.
+
+(* one step of a dialling Connect that has begun (as [mstep_b]) *)
+Definition dial_step (c : cfg) (h : world) (oreg : option ident) : world * option ident :=
+  match ipc h, oreg with
+  | IReturn id, None => (h, Some id)
+  | _, _ => (step_i c h, oreg)
+  end.
+
+Definition xset1 (h : world) (beg : bool) (oreg short : option ident) (x : xworld) : xworld :=
+  {| h1 := h; h2 := h2 x; beg1 := beg; beg2 := beg2 x; oreg1 := oreg; oreg2 := oreg2 x;
+     short1 := short; short2 := short2 x; sA := sA x |}.
+Definition xset2 (h : world) (beg : bool) (oreg short : option ident) (x : xworld) : xworld :=
+  {| h1 := h1 x; h2 := h; beg1 := beg1 x; beg2 := beg; oreg1 := oreg1 x; oreg2 := oreg;
+     short1 := short1 x; short2 := short; sA := sA x |}.
+Definition xset_s (l : list wstate) (x : xworld) : xworld :=
+  {| h1 := h1 x; h2 := h2 x; beg1 := beg1 x; beg2 := beg2 x; oreg1 := oreg1 x; oreg2 := oreg2 x;
+     short1 := short1 x; short2 := short2 x; sA := l |}.
+
+Definition xstep_d1 (a b : node) (x : xworld) : xworld :=
+  match short1 x with
+  | Some _ => x
+  | None =>
+      if beg1 x then
+        let (h, o) := dial_step (c12 a b) (h1 x) (oreg1 x) in xset1 h true o None x
+      else match regAB x with
+           | Some id => xset1 (h1 x) false (oreg1 x) (Some id) x
+           | None => xset1 (h1 x) true (oreg1 x) None x
+           end
+  end.
+Definition xstep_d2 (a b : node) (x : xworld) : xworld :=
+  match short2 x with
+  | Some _ => x
+  | None =>
+      if beg2 x then
+        let (h, o) := dial_step (c21 a b) (h2 x) (oreg2 x) in xset2 h true o None x
+      else match regBA x with
+           | Some id => xset2 (h2 x) false (oreg2 x) (Some id) x
+           | None => xset2 (h2 x) true (oreg2 x) None x
+           end
+  end.
+
+Definition xstep_w1 (x : xworld) (s : wstate) : wstate :=
+  match s with
+  | WNew => match regBA x with Some id => WHandled id | None => WWait end
+  | WWait => if Nat.eqb (markB x) 0 then WLook2 else WWait
+  | WLook2 => match regBA x with Some id => WHandled id | None => WUnknown end
+  | s => s
+  end.
+
+Inductive xwho :=
+| XD1 | XD2          (* A's Connect(B), B's Connect(A) *)
+| XR1 | XR2          (* B's handler of handshake 1, A's handler of handshake 2 *)
+| XO                 (* A opens a stream to B *)
+| XW (k : nat).      (* B's wrapper for the k-th stream *)
+
+Definition xstep (a b : node) (x : xworld) (e : xwho) : xworld :=
+  match e with
+  | XD1 => xstep_d1 a b x
+  | XD2 => xstep_d2 a b x
+  | XR1 => if beg1 x then xset1 (step_r Current (c12 a b) (h1 x)) true (oreg1 x) (short1 x) x else x
+  | XR2 => if beg2 x then xset2 (step_r Current (c21 a b) (h2 x)) true (oreg2 x) (short2 x) x else x
+  | XO => match ret1 x with Some _ => xset_s (sA x ++ [WNew]) x | None => x end
+  | XW k => xset_s (upd k (xstep_w1 x) (sA x)) x
+  end.
+Definition xrun_from (a b : node) (x : xworld) (sched : list xwho) : xworld :=
+  fold_left (xstep a b) sched x.
+Definition xrun (a b : node) (sched : list xwho) : xworld := xrun_from a b xinit sched.
+
+(* canonical schedule of the correspondence check (class 4): both nodes dial; A's Connect has
+   returned, B is held before it verifies A's final message and before its own addPeer; A opens n
+   streams and B's wrappers look once; then both handshakes finish and the wrappers run on *)
+Definition x_hs : list xwho :=
+  [XD1; XD2; XD1; XD2] ++ repeat XR1 5 ++ repeat XR2 5 ++ repeat XD1 7 ++ repeat XD2 5 ++ [XR1].
+Definition x_full (n : nat) : list xwho :=
+  x_hs ++ repeat XO n ++ map XW (seq 0 n) ++ [XD2; XD2; XD2] ++ repeat XR1 3 ++ repeat XR2 4 ++
+  flat_map (fun k => [XW k; XW k]) (seq 0 n).
